@@ -1075,8 +1075,57 @@ func checkSetAlg(c *Ctx, ct *types.Named, fn *ssa.Function, gc *GCNF, name strin
 		return
 	}
 	loopFreeUnion := false
+	symDelegation := false
 	switch name {
 	case "Intersection":
+		// the operation is symmetric: `if recv is the strictly larger one { return another.Intersection(recv) }` followed by
+		// the one arm over the receiver is the two written-out arms (the swapped call takes the loop: sizes are then <=)
+		if len(loops) == 1 && len(byOperand["0"]) == 1 {
+			selfKey := p.FuncKey(fn)
+			swapped, straight := false, false
+			for _, g := range gc.GCs {
+				if g.From != 0 {
+					continue
+				}
+				var strictOther, leOwn bool
+				for _, a := range g.Guards {
+					if len(a.Args) != 2 {
+						continue
+					}
+					x, y := a.Args[0], a.Args[1]
+					on := func(t *Term, prm string) bool {
+						return t.any(func(u *Term) bool { return u.String() == prm }) && !t.any(func(u *Term) bool { return u.Op == "p" && u.String() != prm })
+					}
+					if a.Op == "<" && on(x, "p:1") && on(y, "p:0") {
+						strictOther = true
+					}
+					if a.Op == "<=" && on(x, "p:0") && on(y, "p:1") {
+						leOwn = true
+					}
+				}
+				if g.Exit.Op == "return" && len(g.Exit.Args) == 1 && len(g.Effects) == 0 && strictOther {
+					if r := g.Exit.Args[0]; r.Op == "call" && r.Leaf == selfKey && len(r.Args) == 3 && r.Args[1].String() == "p:1" && r.Args[2].String() == "p:0" {
+						swapped = true
+					}
+				}
+				if g.Exit.Op == "goto" && leOwn {
+					straight = true
+				}
+			}
+			if swapped && straight {
+				symDelegation = true
+				for _, ld := range loops {
+					if !eq(ld.adds, map[string]bool{"in": true, "notin": false}) {
+						bad = append(bad, fmt.Sprintf("the loop over operand %s must add an element iff the other operand contains it, found %v", ld.operand, ld.adds))
+					}
+					if ret, gotos := exitsTo(ld); !ret || len(gotos) > 0 {
+						bad = append(bad, "the arm must return the result when its operand is exhausted")
+					}
+				}
+				descs = append(descs, "one arm over the receiver; the strictly larger receiver hands over to the argument's Intersection (symmetric)")
+				break
+			}
+		}
 		if len(loops) != 2 || len(byOperand["0"]) != 1 || len(byOperand["1"]) != 1 {
 			bad = append(bad, fmt.Sprintf("expected one loop over each operand, found %d loop(s)", len(loops)))
 		}
@@ -1164,6 +1213,69 @@ func checkSetAlg(c *Ctx, ct *types.Named, fn *ssa.Function, gc *GCNF, name strin
 			}
 		}
 	case "Difference":
+		if len(loops) == 0 && addMapField != "" {
+			// maps.Copy(result.items, recv.items); maps.DeleteFunc(result.items, in-the-argument): the receiver's members minus
+			// those the argument's table holds
+			n := 0
+			copied, deleted := false, false
+			for _, g := range gc.GCs {
+				if g.From != 0 || g.Exit.Op != "return" {
+					continue
+				}
+				n++
+				for _, ef := range g.Effects {
+					if isStore(ef) && ef.Args[0].Op == "new" && ef.Args[1].Op == "p" {
+						continue // a parameter captured by the predicate
+					}
+					if ef.Op == "stddo" && ef.Leaf == "maps.Copy" && len(ef.Args) == 2 && !deleted {
+						dst, ok1 := innerOn(ef.Args[0], addMapField)
+						src, ok2 := innerOn(ef.Args[1], addMapField)
+						if ok1 && ok2 && src.String() == "p:0" {
+							setResult(dst)
+							copied = true
+							continue
+						}
+					}
+					if ef.Op == "stddo" && ef.Leaf == "maps.DeleteFunc" && len(ef.Args) == 2 && copied && ef.Args[1].Op == "closure" && len(ef.Args[1].Args) == 1 {
+						if dst, ok1 := innerOn(ef.Args[0], addMapField); ok1 {
+							setResult(dst)
+							// the predicate: found-flag of a lookup of its key in the table of the captured *argument*
+							captured := ef.Args[1].Args[0]
+							isArg := false
+							for _, e2 := range g.Effects {
+								if isStore(e2) && e2.Args[0].String() == captured.String() && e2.Args[1].String() == "p:1" {
+									isArg = true
+								}
+							}
+							for _, an := range fn.AnonFuncs {
+								if p.FuncKey(an) != ef.Args[1].Leaf {
+									continue
+								}
+								ag := c.GC(an)
+								if ag.Undecided == "" && len(ag.GCs) == 1 && len(ag.GCs[0].Guards) == 0 && len(ag.GCs[0].Effects) == 0 && ag.GCs[0].Exit.Op == "return" && len(ag.GCs[0].Exit.Args) == 1 {
+									if m := ag.GCs[0].Exit.Args[0]; m.Op == "ext" && m.Leaf == "1" && len(m.Args) == 1 && m.Args[0].Op == "lookup" && len(m.Args[0].Args) == 2 && m.Args[0].Args[1].String() == "p:0" && hasField(m.Args[0].Args[0], addMapField) && m.Args[0].Args[0].any(func(t *Term) bool { return t.Op == "fv" }) && isArg {
+										deleted = true
+									}
+								}
+							}
+							if deleted {
+								continue
+							}
+						}
+					}
+					bad = append(bad, "unexpected effect in a loop-free Difference: "+trunc(noEpoch(ef), 120))
+				}
+				if len(g.Exit.Args) == 1 {
+					setResult(g.Exit.Args[0])
+				}
+			}
+			if n == 0 || !copied || !deleted {
+				bad = append(bad, "a loop-free Difference must copy the receiver's table into the result and delete what the argument's table holds")
+			}
+			descs = append(descs, "maps.Copy of the receiver's table, maps.DeleteFunc of the argument's members")
+			loopFreeUnion = true
+			break
+		}
 		if len(loops) != 1 || len(byOperand["0"]) != 1 {
 			bad = append(bad, fmt.Sprintf("expected exactly one loop, over the receiver; found %d loop(s)", len(loops)))
 		}
@@ -1193,6 +1305,9 @@ func checkSetAlg(c *Ctx, ct *types.Named, fn *ssa.Function, gc *GCNF, name strin
 			}
 		}
 		if g.Exit.Op == "return" {
+			if symDelegation && len(g.Exit.Args) == 1 && g.Exit.Args[0].Op == "call" && g.Exit.Args[0].Leaf == p.FuncKey(fn) {
+				continue // the symmetric hand-over accepted above
+			}
 			if !differ {
 				bad = append(bad, "an early return that is not the comparator-mismatch case")
 			}
